@@ -1,8 +1,8 @@
 (* C09 proofs: the ownership protocol of model/Alloc.v keeps the ledger of spec/Ledger.v equal to
    "blocks held in the fields + what the environment holds", so destroying the instance
    returns everything. *)
-From Coq Require Import NArith List Bool Permutation Lia.
-From V Require Import spec.Ledger model.Alloc.
+From Coq Require Import NArith Arith PeanoNat List Bool Permutation Lia.
+From V Require Import spec.Ledger gen.GenAlloc model.Alloc.
 Import ListNotations.
 Open Scope N_scope.
 
@@ -286,3 +286,730 @@ Proof.
   apply Permutation_app_head.
   eapply perm_trans; [apply Permutation_sym; exact H1|exact H2].
 Qed.
+
+(* ====================================================================== phases *)
+
+Definition loc_empty (e : enc) : Prop := slot e LNew = [] /\ slot e LCmd = [] /\ slot e LLit = [].
+Definition sync (e : enc) : Prop := slot e FCommandBuf = [] -> slot e FLiteralBuf = [].
+(* between two operations *)
+Definition Inv (e : enc) (l : ledger) (X : list blk) : Prop := Inv0 e l X /\ loc_empty e /\ sync e.
+
+Lemma isnil_true {A} (l : list A) : isnil l = true -> l = [].
+Proof. destruct l; cbn; congruence. Qed.
+Lemma isnil_false {A} (l : list A) : isnil l = false -> l <> [].
+Proof. destruct l; cbn; congruence. Qed.
+
+Lemma Inv0_scalars e e' l X : Inv0 e l X -> m8 e' = m8 e -> slot e' = slot e -> Inv0 e' l X.
+Proof.
+  intros H Hm Hs. eapply Inv0_perm; eauto. unfold owned. rewrite Hs. apply Permutation_refl.
+Qed.
+
+Ltac slots := cbn [slot upd fld_eqb m8 fst snd with_params with_hp with_sizes].
+
+Section Phases.
+Variable temps : callee -> N -> list tstep.
+Hypothesis temporaries_balanced : forall c k, bal 0 (temps c k) = true.
+
+Lemma remove_nth_perm {A} (l : list A) : forall k b, nth_error l k = Some b -> Permutation l (b :: remove_nth k l).
+Proof.
+  induction l as [|a l IH]; intros [|k] b H; cbn in *; try discriminate.
+  - inversion H; subst. apply Permutation_refl.
+  - eapply perm_trans; [apply perm_skip; apply IH; exact H|]. apply perm_swap.
+Qed.
+Lemma remove_nth_length {A} (l : list A) : forall k, (k < length l)%nat -> length (remove_nth k l) = pred (length l).
+Proof.
+  induction l as [|a l IH]; intros [|k] H; cbn in *; try lia.
+  rewrite IH by lia. destruct l; cbn in *; lia.
+Qed.
+
+Lemma run_temps_ok inst tr : forall open l M,
+  LInv l (open ++ M) -> Forall (fun b => binst b = inst) open -> bal (length open) tr = true ->
+  exists l', run_temps inst tr open l = ([], l') /\ LInv l' M.
+Proof.
+  induction tr as [|[ty len|k] tr IH]; intros open l M Hl Hown Hb; cbn in *.
+  - apply Nat.eqb_eq in Hb. destruct open; [|discriminate]. exists l. split; auto.
+  - destruct (l_alloc inst ty len l) as [b l1] eqn:E.
+    destruct (LInv_alloc _ _ _ _ _ _ _ Hl E) as (Hl1 & Hown1 & Hne & Hlen).
+    apply (IH (b ++ open) l1 M).
+    + rewrite <- app_assoc. exact Hl1.
+    + apply Forall_app; auto.
+    + rewrite app_length. unfold l_alloc in E. destruct (len =? 0); inversion E; subst; cbn; exact Hb.
+  - apply andb_prop in Hb. destruct Hb as (Hk & Hb). apply Nat.ltb_lt in Hk.
+    destruct (nth_error open k) as [b|] eqn:En; [|apply nth_error_None in En; lia].
+    pose proof (remove_nth_perm _ _ _ En) as Hp.
+    apply (IH (remove_nth k open) _ M).
+    + cbn. apply LInv_free1.
+      * eapply LInv_perm; [exact Hl|]. apply (Permutation_app_tail M) in Hp. exact Hp.
+      * rewrite Forall_forall in Hown. apply Hown. eapply nth_error_In; eauto.
+    + eapply Forall_perm in Hown; [|exact Hp]. inversion Hown; auto.
+    + rewrite remove_nth_length by auto. exact Hb.
+Qed.
+
+Definition slots_same_except (e e' : enc) (fs : list fld) : Prop :=
+  forall g, ~ In g fs -> slot e' g = slot e g.
+
+(* the phases that may also run inside compress_stream_fast: they touch at most storage_ and
+   large_table_ and need nothing about the locals *)
+Lemma simple_phase_ok ph e l X :
+  Inv0 e l X ->
+  match ph with PhSizeHint _ | PhStorage _ | PhTable _ | PhTemp _ _ => True | _ => False end ->
+  let s' := do_phase temps ph (e, l) in
+  Inv0 (fst s') (snd s') X /\ m8 (fst s') = m8 e /\ quality (fst s') = quality e /\
+  slots_same_except e (fst s') [FStorage; FLargeTable].
+Proof.
+  intros H Hph.
+  assert (Hid : Inv0 e l X /\ m8 e = m8 e /\ quality e = quality e /\
+                slots_same_except e e [FStorage; FLargeTable]).
+  { split; [exact H|split; [reflexivity|split; [reflexivity|intros g _; reflexivity]]]. }
+  destruct ph; try (exfalso; exact Hph); cbn [do_phase fst snd].
+  - (* size hint *)
+    destruct (size_hint e =? 0); cbn [fst snd]; [|exact Hid].
+    split; [eapply Inv0_scalars; [exact H|reflexivity|reflexivity]|].
+    split; [reflexivity|split; [reflexivity|intros g _; reflexivity]].
+  - (* storage *)
+    destruct (storage_size e <? size); [|exact Hid].
+    destruct (free_slot_ok _ _ _ FStorage H) as (l1 & E1 & H1). rewrite E1.
+    destruct (alloc_to_ok _ _ _ FStorage U8 size H1 (slot_upd_same _ _ _)) as (bs & l2 & E2 & H2 & _).
+    rewrite E2. cbn [fst snd].
+    split; [eapply Inv0_scalars; [exact H2|reflexivity|reflexivity]|].
+    split; [reflexivity|split; [reflexivity|]].
+    intros g Hg. slots. cbn in Hg. destruct g; cbn; auto; tauto.
+  - (* hash table *)
+    destruct (htsize <=? 1024); [exact Hid|].
+    destruct (total_len (slot e FLargeTable) <? htsize); [|exact Hid].
+    destruct (free_slot_ok _ _ _ FLargeTable H) as (l1 & E1 & H1). rewrite E1.
+    destruct (alloc_to_ok _ _ _ FLargeTable I32 htsize H1 (slot_upd_same _ _ _)) as (bs & l2 & E2 & H2 & _).
+    rewrite E2. cbn [fst snd].
+    split; [exact H2|split; [reflexivity|split; [reflexivity|]]].
+    intros g Hg. slots. cbn in Hg. destruct g; cbn; auto; tauto.
+  - (* back end temporaries *)
+    destruct H as (Hl & Ho).
+    destruct (run_temps_ok (m8 e) (temps c k) [] l (owned e ++ X) Hl (Forall_nil _)
+                (temporaries_balanced c k)) as (l' & E & Hl').
+    rewrite E. cbn [fst snd]. rewrite l_drop_nil.
+    split; [split; assumption|split; [reflexivity|split; [reflexivity|intros g _; reflexivity]]].
+Qed.
+
+Lemma mkInv e e' l' X :
+  Inv0 e' l' X -> slot e' LNew = [] -> slot e' LCmd = [] -> slot e' LLit = [] -> sync e' ->
+  m8 e' = m8 e -> Inv e' l' X /\ m8 e' = m8 e.
+Proof. intros. split; [split; [assumption|split; [split; [|split]|]]|]; assumption. Qed.
+
+Lemma phase_ok ph e l X :
+  Inv e l X ->
+  let s' := do_phase temps ph (e, l) in
+  Inv (fst s') (snd s') X /\ m8 (fst s') = m8 e.
+Proof.
+  intros (H & (HN & HC & HL) & Hsync).
+  assert (Hid : Inv e l X /\ m8 e = m8 e).
+  { apply mkInv; auto. }
+  assert (Hsimple : match ph with PhSizeHint _ | PhStorage _ | PhTable _ | PhTemp _ _ => True | _ => False end ->
+                    let s' := do_phase temps ph (e, l) in Inv (fst s') (snd s') X /\ m8 (fst s') = m8 e).
+  { intros Hph. destruct (simple_phase_ok ph e l X H Hph) as (H' & Hm & _ & Hsame).
+    cbv zeta. apply mkInv; auto.
+    - rewrite Hsame; auto; cbn; intuition discriminate.
+    - rewrite Hsame; auto; cbn; intuition discriminate.
+    - rewrite Hsame; auto; cbn; intuition discriminate.
+    - intros Hc. rewrite Hsame in Hc by (cbn; intuition discriminate).
+      rewrite Hsame by (cbn; intuition discriminate). auto. }
+  destruct ph; try (apply Hsimple; exact I); clear Hsimple; cbn [do_phase fst snd].
+  - (* ring buffer *)
+    destruct (alloc_to_ok _ _ _ LNew U8 (2 + buflen + 7) H HN) as (bs & l1 & E1 & H1 & _).
+    rewrite E1.
+    destruct (isnil (slot e FRing)) eqn:Er.
+    + apply isnil_true in Er.
+      destruct (move_ok _ _ X LNew FRing H1) as (E2 & H2); [discriminate|slots; exact Er|].
+      rewrite E2. cbn [fst snd]. apply mkInv; [exact H2|slots; auto ..|reflexivity];
+        try (unfold sync; slots; exact Hsync).
+    + destruct (free_slot_ok _ _ _ FRing H1) as (l2 & E2 & H2). rewrite E2.
+      destruct (move_ok _ _ X LNew FRing H2) as (E3 & H3); [discriminate|slots; reflexivity|].
+      rewrite E3. cbn [fst snd]. apply mkInv; [exact H3|slots; auto ..|reflexivity];
+        try (unfold sync; slots; exact Hsync).
+  - (* command buffer *)
+    destruct (cmd_alloc_size e <? newsize); [|exact Hid].
+    destruct (alloc_to_ok _ _ _ LNew ECmd (newsize + extra) H HN) as (bs & l1 & E1 & H1 & _).
+    rewrite E1.
+    destruct (isnil (slot e FCommands)) eqn:Er.
+    + apply isnil_true in Er.
+      destruct (move_ok _ _ X LNew FCommands H1) as (E2 & H2); [discriminate|slots; exact Er|].
+      rewrite E2. cbn [fst snd].
+      apply mkInv; [eapply Inv0_scalars; [exact H2|reflexivity|reflexivity]|slots; auto ..|reflexivity];
+        try (unfold sync; slots; exact Hsync).
+    + destruct (free_slot_ok _ _ _ FCommands H1) as (l2 & E2 & H2). rewrite E2.
+      destruct (move_ok _ _ X LNew FCommands H2) as (E3 & H3); [discriminate|slots; reflexivity|].
+      rewrite E3. cbn [fst snd].
+      apply mkInv; [eapply Inv0_scalars; [exact H3|reflexivity|reflexivity]|slots; auto ..|reflexivity];
+        try (unfold sync; slots; exact Hsync).
+  - (* hasher *)
+    destruct (isnil (slot e FHasher)) eqn:Eh; [|exact Hid].
+    apply isnil_true in Eh.
+    destruct (alloc_blocks_from_ok _ _ X FHasher
+                (hasher_blocks (choose_hasher (quality e) (q9_5 e) (size_hint e) (lgwin e) (hp e)) (lgwin e)) H Eh)
+      as (bs & l1 & E1 & H1).
+    rewrite E1. cbn [fst snd].
+    apply mkInv; [eapply Inv0_scalars; [exact H1|reflexivity|reflexivity]|slots; auto ..|reflexivity];
+      try (unfold sync; slots; exact Hsync).
+  - (* quality 1 buffers *)
+    destruct ((quality e =? 1) && isnil (slot e FCommandBuf)) eqn:Eg; [|exact Hid].
+    apply andb_prop in Eg. destruct Eg as (_ & Ec). apply isnil_true in Ec.
+    destruct (alloc_to_ok _ _ _ FCommandBuf U32 two17 H Ec) as (bs & l1 & E1 & H1 & Hne & _).
+    rewrite E1.
+    destruct (alloc_to_ok _ _ X FLiteralBuf U8 two17 H1) as (bs2 & l2 & E2 & H2 & _).
+    { slots. apply Hsync. exact Ec. }
+    rewrite E2. cbn [fst snd].
+    apply mkInv; [exact H2|slots; auto ..|reflexivity].
+    unfold sync. slots. intros Hc. exfalso.
+    apply Hne; [vm_compute; discriminate|exact Hc].
+Qed.
+
+Lemma do_phases_ok phs : forall e l X,
+  Inv e l X -> let s' := do_phases temps phs (e, l) in Inv (fst s') (snd s') X /\ m8 (fst s') = m8 e.
+Proof.
+  induction phs as [|ph phs IH]; intros e l X H; cbn.
+  - split; auto.
+  - destruct (phase_ok ph e l X H) as (H1 & Hm).
+    destruct (do_phase temps ph (e, l)) as [e1 l1]. cbn [fst snd] in *.
+    destruct (IH e1 l1 X H1) as (H2 & Hm2). unfold do_phases in H2, Hm2.
+    split; [exact H2|]. rewrite Hm2. exact Hm.
+Qed.
+
+(* ---------------------------------------------------------------- compress_stream_fast *)
+
+(* inside compress_stream_fast the locals LCmd / LLit hold the two-pass buffers *)
+Definition InvF (e : enc) (l : ledger) (X : list blk) : Prop :=
+  Inv0 e l X /\ slot e LNew = [] /\ sync e.
+
+Lemma total_len_two17 bs : total_len bs = two17 -> bs <> [].
+Proof. intros H E. subst. vm_compute in H. discriminate. Qed.
+
+Lemma fast_prologue_ok n e l X :
+  Inv e l X -> let s' := fast_prologue n (e, l) in InvF (fst s') (snd s') X /\ m8 (fst s') = m8 e.
+Proof.
+  intros (H & (HN & HC & HL) & Hsync). unfold fast_prologue. cbn [fst snd].
+  destruct (quality e =? 1); [|cbn [fst snd]; split; [split; [exact H|split; assumption]|reflexivity]].
+  assert (Hmoves : forall e1 l1, Inv0 e1 l1 X -> slot e1 LNew = [] -> slot e1 LCmd = [] -> slot e1 LLit = [] ->
+            m8 e1 = m8 e ->
+            let s' := move FLiteralBuf LLit (move FCommandBuf LCmd (e1, l1)) in
+            InvF (fst s') (snd s') X /\ m8 (fst s') = m8 e).
+  { intros e1 l1 H1 HN1 HC1 HL1 Hm1.
+    destruct (move_ok _ _ X FCommandBuf LCmd H1) as (E2 & H2); [discriminate|exact HC1|].
+    rewrite E2.
+    destruct (move_ok _ _ X FLiteralBuf LLit H2) as (E3 & H3); [discriminate|slots; exact HL1|].
+    rewrite E3. cbn [fst snd]. split; [|exact Hm1].
+    split; [exact H3|split; [slots; exact HN1|]]. unfold sync. slots. reflexivity. }
+  destruct (isnil (slot e FCommandBuf) && (n =? two17)) eqn:Eg.
+  - apply andb_prop in Eg. destruct Eg as (Ec & _). apply isnil_true in Ec.
+    destruct (alloc_to_ok _ _ _ FCommandBuf U32 two17 H Ec) as (bs & l1 & E1 & H1 & Hne & _).
+    rewrite E1.
+    destruct (alloc_to_ok _ _ X FLiteralBuf U8 two17 H1) as (bs2 & l2 & E2 & H2 & _).
+    { slots. apply Hsync. exact Ec. }
+    rewrite E2. cbn [fst snd].
+    assert (Enn : isnil (slot (upd (upd e FCommandBuf bs) FLiteralBuf bs2) FCommandBuf) = false).
+    { slots. destruct bs; [exfalso; apply Hne; [vm_compute; discriminate|reflexivity]|reflexivity]. }
+    rewrite Enn. apply Hmoves; auto.
+  - cbn [fst snd]. destruct (isnil (slot e FCommandBuf)) eqn:Ec.
+    + apply isnil_true in Ec.
+      destruct (alloc_to_ok _ _ _ LCmd U32 n H HC) as (bs & l1 & E1 & H1 & _). rewrite E1.
+      destruct (alloc_to_ok _ _ X LLit U8 n H1) as (bs2 & l2 & E2 & H2 & _); [slots; exact HL|].
+      rewrite E2. cbn [fst snd]. split; [|reflexivity].
+      split; [exact H2|split; [slots; exact HN|]]. unfold sync. slots. exact Hsync.
+    + apply Hmoves; auto.
+Qed.
+
+Lemma fphases_ok phs : forall e l X,
+  InvF e l X ->
+  let s' := do_phases temps (map of_fphase phs) (e, l) in
+  InvF (fst s') (snd s') X /\ m8 (fst s') = m8 e.
+Proof.
+  induction phs as [|p phs IH]; intros e l X H; cbn [map do_phases fold_left].
+  - split; auto.
+  - destruct H as (H0 & HN & Hsync).
+    assert (Hp : match of_fphase p with PhSizeHint _ | PhStorage _ | PhTable _ | PhTemp _ _ => True | _ => False end)
+      by (destruct p; exact I).
+    destruct (simple_phase_ok (of_fphase p) e l X H0 Hp) as (H1 & Hm & _ & Hsame).
+    destruct (do_phase temps (of_fphase p) (e, l)) as [e1 l1]. cbn [fst snd] in *.
+    assert (HF : InvF e1 l1 X).
+    { split; [exact H1|split].
+      - rewrite Hsame; auto; cbn; intuition discriminate.
+      - intros Hc. rewrite Hsame in Hc by (cbn; intuition discriminate).
+        rewrite Hsame by (cbn; intuition discriminate). auto. }
+    destruct (IH e1 l1 X HF) as (H2 & Hm2). unfold do_phases in H2, Hm2.
+    split; [exact H2|]. rewrite Hm2. exact Hm.
+Qed.
+
+Lemma fast_epilogue_ok e l X :
+  InvF e l X -> let s' := fast_epilogue (e, l) in Inv (fst s') (snd s') X /\ m8 (fst s') = m8 e.
+Proof.
+  intros (H & HN & Hsync). unfold fast_epilogue. cbn [fst snd].
+  destruct ((total_len (slot e LCmd) =? two17) && isnil (slot e FCommandBuf)) eqn:Eg.
+  - apply andb_prop in Eg. destruct Eg as (Elen & Ec). apply isnil_true in Ec. apply N.eqb_eq in Elen.
+    destruct (move_ok _ _ X LCmd FCommandBuf H) as (E1 & H1); [discriminate|exact Ec|]. rewrite E1.
+    destruct (move_ok _ _ X LLit FLiteralBuf H1) as (E2 & H2); [discriminate|slots; apply Hsync; exact Ec|].
+    rewrite E2. cbn [fst snd]. apply mkInv; [exact H2|slots; auto ..|reflexivity].
+    unfold sync. slots. intros Hc. exfalso. exact (total_len_two17 _ Elen Hc).
+  - destruct (free_slot_ok _ _ X LCmd H) as (l1 & E1 & H1). rewrite E1.
+    destruct (free_slot_ok _ _ X LLit H1) as (l2 & E2 & H2). rewrite E2. cbn [fst snd].
+    apply mkInv; [exact H2|slots; auto ..|reflexivity]; try (unfold sync; slots; exact Hsync).
+Qed.
+
+Lemma stream_fast_ok n phs e l X :
+  Inv e l X -> let s' := stream_fast temps n phs (e, l) in Inv (fst s') (snd s') X /\ m8 (fst s') = m8 e.
+Proof.
+  intros H. unfold stream_fast. cbn [fst].
+  destruct ((quality e =? 0) || (quality e =? 1)); [|cbn [fst snd]; split; auto].
+  destruct (fast_prologue_ok n e l X H) as (H1 & Hm1).
+  destruct (fast_prologue n (e, l)) as [e1 l1]. cbn [fst snd] in *.
+  destruct (fphases_ok phs e1 l1 X H1) as (H2 & Hm2).
+  destruct (do_phases temps (map of_fphase phs) (e1, l1)) as [e2 l2]. cbn [fst snd] in *.
+  destruct (fast_epilogue_ok e2 l2 X H2) as (H3 & Hm3). split; [exact H3|]. congruence.
+Qed.
+
+(* ---------------------------------------------------------------- the operations *)
+
+Lemma ensure_init_slots s : slot (fst (ensure_init s)) = slot (fst s) /\ m8 (fst (ensure_init s)) = m8 (fst s)
+  /\ snd (ensure_init s) = snd s.
+Proof. destruct s as [e l]. unfold ensure_init. destruct (initialized e); cbn; auto. Qed.
+
+Lemma Inv_scalars e e' l X : Inv e l X -> m8 e' = m8 e -> slot e' = slot e -> Inv e' l X.
+Proof.
+  intros (H & (HN & HC & HL) & Hs) Hm Hsl. split; [eapply Inv0_scalars; eauto|].
+  unfold loc_empty, sync. rewrite Hsl. auto.
+Qed.
+
+Lemma ensure_init_ok e l X :
+  Inv e l X -> let s' := ensure_init (e, l) in Inv (fst s') (snd s') X /\ m8 (fst s') = m8 e.
+Proof.
+  intros H. destruct (ensure_init_slots (e, l)) as (Hs & Hm & Hl). cbv zeta. rewrite Hl.
+  split; [eapply Inv_scalars; eauto|exact Hm].
+Qed.
+
+Lemma hasher_setup_ok0 e l X :
+  Inv0 e l X -> let s' := do_phase temps PhHasherSetup (e, l) in
+  Inv0 (fst s') (snd s') X /\ m8 (fst s') = m8 e /\ slots_same_except e (fst s') [FHasher].
+Proof.
+  intros H. cbn [do_phase fst snd].
+  destruct (isnil (slot e FHasher)) eqn:Eh.
+  - apply isnil_true in Eh.
+    destruct (alloc_blocks_from_ok _ _ X FHasher
+                (hasher_blocks (choose_hasher (quality e) (q9_5 e) (size_hint e) (lgwin e) (hp e)) (lgwin e)) H Eh)
+      as (bs & l1 & E1 & H1).
+    rewrite E1. cbn [fst snd].
+    split; [eapply Inv0_scalars; [exact H1|reflexivity|reflexivity]|split; [reflexivity|]].
+    intros g Hg. slots. cbn in Hg. destruct g; cbn; auto; tauto.
+  - cbn [fst snd]. split; [exact H|split; [reflexivity|intros g _; reflexivity]].
+Qed.
+
+Lemma set_dict_ok dbg size oshapes rings e l X :
+  Inv e l X ->
+  let s' := set_dict temps (current dbg) size (m8 e) oshapes rings (e, l) in
+  Inv (fst s') (snd s') X /\ m8 (fst s') = m8 e.
+Proof.
+  intros (H & (HN & HC & HL) & Hsync). unfold set_dict.
+  destruct (alloc_blocks_from_ok _ _ X LNew oshapes H HN) as (bs & l0 & E0 & H0). rewrite E0.
+  change (v_dict_frees_old (current dbg)) with true. change (v_debug (current dbg)) with dbg.
+  change (v_dict_destroys_orig (current dbg)) with true. cbn [fst snd]. rewrite slot_upd_same.
+  destruct (free_slot_ok _ _ X FHasher H0) as (l1 & E1 & H1). rewrite E1.
+  destruct (move_ok _ _ X LNew FHasher H1) as (E2 & H2); [discriminate|slots; reflexivity|]. rewrite E2.
+  revert H2. slots. set (e2 := upd (upd (upd (upd e LNew bs) FHasher []) LNew []) FHasher bs). intros H2.
+  assert (I2 : Inv e2 l1 X).
+  { split; [exact H2|split; [repeat split; unfold e2; slots; auto|]]. unfold sync, e2. slots. exact Hsync. }
+  destruct (ensure_init_ok e2 l1 X I2) as (I3 & Hm3).
+  destruct (ensure_init (e2, l1)) as [e3 l3]. cbn [fst snd] in *.
+  assert (Hm3' : m8 e3 = m8 e) by (rewrite Hm3; reflexivity).
+  destruct ((size =? 0) || (quality e3 =? 0) || (quality e3 =? 1) || (size <=? 1)).
+  { cbn [fst snd]. split; [eapply Inv_scalars; [exact I3|reflexivity|reflexivity]|exact Hm3']. }
+  destruct (do_phases_ok (map PhRingInit rings) e3 l3 X I3) as (I4 & Hm4).
+  destruct (do_phases temps (map PhRingInit rings) (e3, l3)) as [e4 l4]. cbn [fst snd] in *.
+  assert (Hm4' : m8 e4 = m8 e) by congruence.
+  destruct (dbg || negb (negb (isnil bs))) eqn:Ed; [|split; [exact I4|exact Hm4']].
+  destruct I4 as (H4 & (HN4 & HC4 & HL4) & Hs4).
+  destruct (negb (isnil bs)) eqn:Eb.
+  - (* a precomputed hasher was supplied: rebuild, compare, destroy the original *)
+    destruct (move_ok _ _ X FHasher LNew H4) as (E5 & H5); [discriminate|exact HN4|]. rewrite E5.
+    destruct (hasher_setup_ok0 _ _ X H5) as (H6 & Hm6 & Hsame6).
+    destruct (do_phase temps PhHasherSetup (upd (upd e4 FHasher []) LNew (slot e4 FHasher), l4)) as [e6 l6].
+    cbn [fst snd] in *.
+    destruct (free_slot_ok _ _ X LNew H6) as (l7 & E7 & H7). rewrite E7. cbn [fst snd].
+    apply mkInv; [exact H7|slots; try reflexivity ..|].
+    + rewrite Hsame6 by (cbn; intuition discriminate). slots. exact HC4.
+    + rewrite Hsame6 by (cbn; intuition discriminate). slots. exact HL4.
+    + unfold sync. slots. rewrite !Hsame6 by (cbn; intuition discriminate). slots. exact Hs4.
+    + slots. rewrite Hm6. slots. exact Hm4'.
+  - destruct (phase_ok PhHasherSetup e4 l4 X) as (I6 & Hm6).
+    { split; [exact H4|split; [repeat split; assumption|exact Hs4]]. }
+    split; [exact I6|]. rewrite Hm6. exact Hm4'.
+Qed.
+
+(* the model's long-lived fields are exactly the allocator-backed fields of the struct *)
+Lemma model_covers_state_fields : alloc_state_fields = [0; 1; 2; 3; 4; 5; 6].
+Proof. reflexivity. Qed.
+
+Lemma cleanup_ok dbg e l X :
+  Inv e l X -> let s' := cleanup (current dbg) (e, l) in
+  Inv (fst s') (snd s') X /\ m8 (fst s') = m8 e /\ owned (fst s') = [].
+Proof.
+  intros (H & (HN & HC & HL) & Hsync). unfold cleanup.
+  change (v_destroy_cleans (current dbg)) with true.
+  change (v_cleanup_fields (current dbg))
+    with [FStorage; FCommands; FRing; FHasher; FLargeTable; FCommandBuf; FLiteralBuf].
+  cbn [fold_left].
+  destruct (free_slot_ok _ _ X FStorage H) as (l1 & E1 & H1). rewrite E1.
+  destruct (free_slot_ok _ _ X FCommands H1) as (l2 & E2 & H2). rewrite E2.
+  destruct (free_slot_ok _ _ X FRing H2) as (l3 & E3 & H3). rewrite E3.
+  destruct (free_slot_ok _ _ X FHasher H3) as (l4 & E4 & H4). rewrite E4.
+  destruct (free_slot_ok _ _ X FLargeTable H4) as (l5 & E5 & H5). rewrite E5.
+  destruct (free_slot_ok _ _ X FCommandBuf H5) as (l6 & E6 & H6). rewrite E6.
+  destruct (free_slot_ok _ _ X FLiteralBuf H6) as (l7 & E7 & H7). rewrite E7.
+  cbn [fst snd]. split; [|split; [reflexivity|]].
+  - split; [exact H7|split; [repeat split; slots; assumption|]]. unfold sync. slots. reflexivity.
+  - unfold owned. cbn [flat_map all_flds]. slots. rewrite HN, HC, HL. reflexivity.
+Qed.
+
+(* what a history may contain for the theorem about the current code: a precomputed hasher
+   (OSetDict) must have been built through the allocator the state owns - which is what
+   CompressMulti does with clone_with_alloc - and OInstallHasher only occurs as the first
+   step of the one-shot entry point, treated separately *)
+Definition good_op (m : N) (o : op) : Prop :=
+  match o with
+  | OSetDict _ oinst _ _ => oinst = m
+  | OInstallHasher _ _ => False
+  | _ => True
+  end.
+
+Lemma run_op_ok dbg o e l X :
+  Inv e l X -> good_op (m8 e) o ->
+  let s' := run_op temps (current dbg) o (e, l) in Inv (fst s') (snd s') X /\ m8 (fst s') = m8 e.
+Proof.
+  intros H Hg. destruct o; cbn [run_op fst snd].
+  - split; [|unfold set_param; destruct (initialized e); [reflexivity|destruct p; reflexivity]].
+    eapply Inv_scalars; [exact H| |]; unfold set_param; destruct (initialized e); try reflexivity;
+      destruct p; reflexivity.
+  - cbn in Hg. subst oinst. apply set_dict_ok. exact H.
+  - destruct Hg.
+  - destruct (ensure_init_ok e l X H) as (H1 & Hm1).
+    destruct (ensure_init (e, l)) as [e1 l1]. cbn [fst snd] in *.
+    destruct (do_phases_ok phs e1 l1 X H1) as (H2 & Hm2). split; [exact H2|congruence].
+  - destruct (ensure_init_ok e l X H) as (H1 & Hm1).
+    destruct (ensure_init (e, l)) as [e1 l1]. cbn [fst snd] in *.
+    destruct (stream_fast_ok buf_size phs e1 l1 X H1) as (H2 & Hm2). split; [exact H2|congruence].
+  - split; [exact H|reflexivity].
+  - destruct (cleanup_ok dbg e l X H) as (H1 & Hm1 & _). split; assumption.
+Qed.
+
+Lemma run_ok dbg h : forall e l X,
+  Inv e l X -> Forall (good_op (m8 e)) h ->
+  let s' := run temps (current dbg) h (e, l) in Inv (fst s') (snd s') X /\ m8 (fst s') = m8 e.
+Proof.
+  induction h as [|o h IH]; intros e l X H Hg; cbn [run fold_left].
+  - split; [exact H|reflexivity].
+  - inversion Hg as [|? ? Ho Hh]; subst.
+    destruct (run_op_ok dbg o e l X H Ho) as (H1 & Hm1).
+    destruct (run_op temps (current dbg) o (e, l)) as [e1 l1]. cbn [fst snd] in *.
+    rewrite <- Hm1 in Hh. destruct (IH e1 l1 X H1 Hh) as (H2 & Hm2). unfold run in H2, Hm2.
+    split; [exact H2|congruence].
+Qed.
+
+Lemma Inv_new inst l X : LInv l X -> Inv (new_enc inst) l X.
+Proof.
+  intros H. split; [split; [exact H|constructor]|split; [repeat split|intros _; reflexivity]].
+Qed.
+
+(* the life of one encoder state whose owner destroys it: the ledger is back to the frame *)
+Lemma instance_life_ok dbg inst h l X :
+  LInv l X -> Forall (good_op inst) h ->
+  LInv (instance_life temps (current dbg) inst h true l) X.
+Proof.
+  intros Hl Hg. unfold instance_life.
+  destruct (run_ok dbg h (new_enc inst) l X (Inv_new inst l X Hl) Hg) as (H1 & _).
+  destruct (run temps (current dbg) h (new_enc inst, l)) as [e1 l1]. cbn [fst snd] in *.
+  destruct (cleanup_ok dbg e1 l1 X H1) as (H2 & _ & Ho).
+  destruct (cleanup (current dbg) (e1, l1)) as [e2 l2]. cbn [fst snd] in *.
+  unfold drop_enc. cbn [fst snd]. rewrite Ho, l_drop_nil.
+  destruct H2 as ((Hl2 & _) & _). rewrite Ho in Hl2. exact Hl2.
+Qed.
+
+End Phases.
+
+(* ====================================================================== entry points *)
+
+Section EntryPoints.
+Variable temps : callee -> N -> list tstep.
+Hypothesis temporaries_balanced : forall c k, bal 0 (temps c k) = true.
+
+Lemma run_app ver a b s : run temps ver (a ++ b) s = run temps ver b (run temps ver a s).
+Proof. unfold run. apply fold_left_app. Qed.
+
+Theorem instance_returns dbg inst h :
+  Forall (good_op inst) h ->
+  returned (instance_life temps (current dbg) inst h true empty_ledger).
+Proof.
+  intros Hg. apply LInv_returned.
+  apply (instance_life_ok temps temporaries_balanced dbg inst h empty_ledger [] LInv_empty Hg).
+Qed.
+
+Theorem writer_returns dbg q w calls :
+  Forall (good_op 0) calls -> returned (writer_life temps (current dbg) q w calls).
+Proof.
+  intros Hg. unfold writer_life. change (v_writer_drop_destroys (current dbg)) with true.
+  apply instance_returns. repeat (constructor; [exact I|]). exact Hg.
+Qed.
+
+Theorem reader_returns dbg q w calls :
+  Forall (good_op 0) calls -> returned (reader_life temps (current dbg) q w calls).
+Proof.
+  intros Hg. unfold reader_life. change (v_reader_drop_destroys (current dbg)) with true.
+  apply instance_returns. repeat (constructor; [exact I|]). exact Hg.
+Qed.
+
+Theorem copy_returns dbg params dict calls x :
+  Forall (good_op 0) (params ++ dict ++ calls) ->
+  returned (copy_life temps (current dbg) params dict calls x).
+Proof.
+  intros Hg. unfold copy_life.
+  assert (E : copy_exit_destroys (current dbg) x = true) by (destruct x; reflexivity).
+  rewrite E. apply instance_returns; exact Hg.
+Qed.
+
+(* the one-shot entry point: its first step installs the quality-10 hasher *)
+Lemma install_hasher_ok dbg shapes e l X :
+  Inv e l X -> slot e FHasher = [] ->
+  let s' := run_op temps (current dbg) (OInstallHasher (m8 e) shapes) (e, l) in
+  Inv (fst s') (snd s') X /\ m8 (fst s') = m8 e.
+Proof.
+  intros (H & (HN & HC & HL) & Hs) Hh. cbn [run_op].
+  destruct (alloc_blocks_from_ok _ _ X FHasher shapes H Hh) as (bs & l1 & E & H1). rewrite E.
+  cbn [fst snd]. apply mkInv; [exact H1|slots; auto ..|reflexivity]; try (unfold sync; slots; exact Hs).
+Qed.
+
+Theorem oneshot_returns dbg q w trivial calls :
+  Forall (good_op 0) calls ->
+  returned (oneshot_life temps (current dbg) q w trivial calls).
+Proof.
+  intros Hg. unfold oneshot_life. destruct trivial; [split; reflexivity|].
+  change (v_oneshot_own_alloc (current dbg)) with true.
+  change (v_oneshot_destroys (current dbg)) with true. cbv iota.
+  destruct (q =? 10).
+  - apply LInv_returned. unfold instance_life. rewrite run_app.
+    set (sh := hasher_blocks (choose_hasher 10 true 0 22 default_hp) 22).
+    change (run temps (current dbg) [OInstallHasher 0 sh] (new_enc 0, empty_ledger))
+      with (run_op temps (current dbg) (OInstallHasher (m8 (new_enc 0)) sh) (new_enc 0, empty_ledger)).
+    destruct (install_hasher_ok dbg sh (new_enc 0) empty_ledger [] (Inv_new 0 _ _ LInv_empty) eq_refl)
+      as (H1 & Hm1).
+    destruct (run_op temps (current dbg) (OInstallHasher (m8 (new_enc 0)) sh) (new_enc 0, empty_ledger))
+      as [e1 l1].
+    cbn [fst snd m8 new_enc] in *.
+    assert (Hg' : Forall (good_op (m8 e1)) (OSetParam PQuality 9 :: OSetParam PLgwin w :: calls)).
+    { rewrite Hm1. repeat (constructor; [exact I|]). exact Hg. }
+    destruct (run_ok temps temporaries_balanced dbg _ e1 l1 [] H1 Hg') as (H2 & _).
+    destruct (run temps (current dbg) (OSetParam PQuality 9 :: OSetParam PLgwin w :: calls) (e1, l1))
+      as [e2 l2]. cbn [fst snd] in *.
+    destruct (cleanup_ok dbg e2 l2 [] H2) as (H3 & _ & Ho).
+    destruct (cleanup (current dbg) (e2, l2)) as [e3 l3]. cbn [fst snd] in *.
+    unfold drop_enc. cbn [fst snd]. rewrite Ho, l_drop_nil.
+    destruct H3 as ((Hl3 & _) & _). rewrite Ho in Hl3. exact Hl3.
+  - cbn [app]. apply instance_returns. repeat (constructor; [exact I|]). exact Hg.
+Qed.
+
+(* ---------------------------------------------------------------- multi-threaded *)
+
+Fixpoint good_threads (i : N) (ts : list thread_spec) : Prop :=
+  match ts with
+  | [] => True
+  | t :: r => Forall (good_op i) (t_params t ++ t_calls t) /\ good_threads (i + 1) r
+  end.
+
+Lemma compress_part_ok dbg i sh t l X :
+  LInv l X -> Forall (good_op i) (t_params t ++ t_calls t) ->
+  let r := compress_part temps (current dbg) i sh t l in
+  LInv (snd r) (fst r ++ X) /\ Forall (fun b => binst b = i) (fst r).
+Proof.
+  intros Hl Hg. unfold compress_part.
+  change (v_clone_same_alloc (current dbg)) with true. change (v_part_destroys (current dbg)) with true.
+  change (v_part_error_frees_chunk (current dbg)) with true. cbv iota.
+  destruct (l_alloc i U8 (t_max t) l) as [chunk l1] eqn:E.
+  destruct (LInv_alloc _ _ _ _ _ _ _ Hl E) as (Hl1 & Hown & _ & _).
+  assert (Hg' : Forall (good_op i)
+                  (t_params t ++ (if i =? 0 then [] else [OSetDict (t_dict t) i sh (t_rings t)]) ++ t_calls t)).
+  { apply Forall_app in Hg. destruct Hg as (Hp & Hc). apply Forall_app. split; auto.
+    apply Forall_app. split; auto. destruct (i =? 0); constructor; [reflexivity|constructor]. }
+  pose proof (instance_life_ok temps temporaries_balanced dbg i _ l1 (chunk ++ X) Hl1 Hg') as Hl2.
+  destruct (t_ok t); cbn [fst snd].
+  - split; assumption.
+  - split; [|constructor]. cbn [app]. apply LInv_free; assumption.
+Qed.
+
+Lemma run_threads_ok dbg sh ts : forall i l X,
+  LInv l X -> good_threads i ts ->
+  let r := run_threads temps (current dbg) sh i ts l in
+  LInv (snd r) (flat_map snd (fst r) ++ X) /\
+  Forall (fun c => Forall (fun b => binst b = fst c) (snd c)) (fst r).
+Proof.
+  induction ts as [|t ts IH]; intros i l X Hl Hg; cbn [run_threads].
+  - cbn. split; [exact Hl|constructor].
+  - destruct Hg as (Hg1 & Hg2).
+    destruct (compress_part_ok dbg i sh t l X Hl Hg1) as (Hl1 & Hown1).
+    destruct (compress_part temps (current dbg) i sh t l) as [c l1]. cbn [fst snd] in *.
+    destruct (IH (i + 1) l1 (c ++ X) Hl1 Hg2) as (Hl2 & Hown2).
+    destruct (run_threads temps (current dbg) sh (i + 1) ts l1) as [cs l2]. cbn [fst snd flat_map] in *.
+    split.
+    + eapply LInv_perm; [exact Hl2|]. rewrite !app_assoc. apply Permutation_app_tail.
+      apply Permutation_app_comm.
+    + constructor; assumption.
+Qed.
+
+Lemma stitch_ok cs : forall l X,
+  LInv l (flat_map snd cs ++ X) ->
+  Forall (fun c => Forall (fun b => binst b = fst c) (snd c)) cs ->
+  LInv (stitch (fun i => i) cs l) X.
+Proof.
+  induction cs as [|c cs IH]; intros l X Hl Hown; cbn [stitch fold_left flat_map] in *.
+  - exact Hl.
+  - inversion Hown as [|? ? Hc Hcs]; subst. apply IH; [|exact Hcs].
+    apply LInv_free; [|exact Hc]. rewrite <- app_assoc in Hl. exact Hl.
+Qed.
+
+Lemma multi_life_ok dbg sh ts l X :
+  LInv l X -> good_threads 0 ts -> LInv (multi_life temps (current dbg) sh ts l) X.
+Proof.
+  intros Hl Hg. unfold multi_life.
+  destruct (run_threads_ok dbg sh ts 0 l X Hl Hg) as (Hl1 & Hown).
+  destruct (run_threads temps (current dbg) sh 0 ts l) as [cs l1]. cbn [fst snd] in *.
+  change (v_stitch_same_alloc (current dbg)) with true. cbv iota.
+  apply stitch_ok; assumption.
+Qed.
+
+Theorem multi_returns dbg sh ts :
+  good_threads 0 ts -> returned (multi_life temps (current dbg) sh ts empty_ledger).
+Proof. intros Hg. apply LInv_returned. apply multi_life_ok; [apply LInv_empty|exact Hg]. Qed.
+
+Theorem multi_slice_returns dbg sh n ts :
+  good_threads 0 ts -> returned (multi_slice_life temps (current dbg) sh n ts).
+Proof.
+  intros Hg. unfold multi_slice_life.
+  destruct (l_alloc 0 U8 n empty_ledger) as [inp l0] eqn:E.
+  destruct (LInv_alloc _ _ _ _ _ _ _ LInv_empty E) as (Hl0 & Hown & _ & _).
+  change (v_slice_frees_input (current dbg)) with true. change (v_multi_restores_input (current dbg)) with true.
+  cbn [negb]. rewrite andb_false_r. cbv iota.
+  apply LInv_returned. apply LInv_free; [|exact Hown].
+  apply multi_life_ok; [|exact Hg]. exact Hl0.
+Qed.
+
+(* ---------------------------------------------------------------- C ABI *)
+
+Theorem ffi_returns dbg custom state_size h :
+  Forall (good_op 0) h -> returned (ffi_life temps (current dbg) custom state_size h).
+Proof.
+  intros Hg. unfold ffi_life. change (v_ffi_destroy_cleans (current dbg)) with true.
+  destruct custom.
+  - destruct (l_alloc 0 EState state_size empty_ledger) as [sb l0] eqn:E.
+    destruct (LInv_alloc _ _ _ _ _ _ _ LInv_empty E) as (Hl0 & Hown & _ & _).
+    apply LInv_returned. apply LInv_free; [|exact Hown].
+    apply (instance_life_ok temps temporaries_balanced dbg 0 h l0 (sb ++ []) Hl0 Hg).
+  - apply LInv_returned. cbn [l_free fold_left].
+    apply (instance_life_ok temps temporaries_balanced dbg 0 h empty_ledger [] LInv_empty Hg).
+Qed.
+
+Theorem ffi_single_returns dbg params call :
+  Forall (good_op 0) (params ++ [call]) -> returned (ffi_single_life temps (current dbg) params call).
+Proof. intros Hg. unfold ffi_single_life. change (v_single_cleans (current dbg)) with true. apply instance_returns. exact Hg. Qed.
+
+End EntryPoints.
+
+(* ====================================================================== witnesses *)
+
+Definition no_temps : callee -> N -> list tstep := fun _ _ => [].
+Lemma no_temps_balanced : forall c k, bal 0 (no_temps c k) = true.
+Proof. reflexivity. Qed.
+
+Lemma not_returned l : returnedb l = false -> ~ returned l.
+Proof. intros H R. apply returnedb_spec in R. congruence. Qed.
+
+(* one small stream: 35 bytes arrive, one meta-block is written (quality 5, lgwin 18) *)
+Definition small_stream : list op :=
+  [OSetParam PQuality 5; OSetParam PLgwin 18;
+   OStream [PhSizeHint 35; PhRingInit 35; PhStorage 597; PhCommands 18 24; PhHasherSetup]].
+
+(* the code before fix b261039: BrotliEncoderDestroyInstance (C ABI) dropped the state *)
+Lemma legacy_ffi_destroy_refuted :
+  ~ returned (ffi_life no_temps (legacy true) true 5624 small_stream) /\
+  length (live (ffi_life no_temps (legacy true) true 5624 small_stream)) = 5%nat.
+Proof. split; [apply not_returned|]; vm_compute; reflexivity. Qed.
+
+(* before fix 4992104: the single-thread branch of BrotliEncoderCompressMulti never cleaned up *)
+Lemma legacy_single_refuted :
+  ~ returned (ffi_single_life no_temps (legacy true)
+                [OSetParam PQuality 5; OSetParam PLgwin 18]
+                (OStream [PhSizeHint 35; PhRingInit 35; PhStorage 597; PhCommands 18 24; PhHasherSetup])).
+Proof. apply not_returned. vm_compute. reflexivity. Qed.
+
+(* before fix 29febca: one-shot quality 10 allocated its hasher from the placeholder allocator
+   (instance 1) and freed it through the real one (instance 0) *)
+Lemma legacy_oneshot_refuted :
+  let l := oneshot_life no_temps (legacy true) 10 18 false
+             [OStream [PhSizeHint 3000; PhRingInit 3000; PhStorage 6527; PhCommands 1501 766; PhHasherSetup]] in
+  live l = [] /\ count_faults is_foreign l = 2 /\ ~ returned l.
+Proof. cbv zeta. split; [|split; [|apply not_returned]]; vm_compute; reflexivity. Qed.
+
+(* before fix 58cb8c9: a second set_custom_dictionary overwrote the first one's hasher *)
+Lemma legacy_dict_refuted :
+  let l := instance_life no_temps (legacy true) 0
+             [OSetParam PQuality 5; OSetParam PLgwin 18; OSetDict 100 0 [] [100]; OSetDict 100 0 [] [262144 + 65536]]
+             true empty_ledger in
+  length (live l) = 2%nat /\ count_faults is_dropped l = 2 /\ ~ returned l.
+Proof. cbv zeta. split; [|split; [|apply not_returned]]; vm_compute; reflexivity. Qed.
+
+(* why good_op asks for the state's own instance: a precomputed hasher built through another
+   allocator is released through the wrong one, also on the current code *)
+Lemma foreign_precomputed_hasher_refuted :
+  let l := instance_life no_temps (current false) 0
+             [OSetParam PQuality 5; OSetParam PLgwin 18; OSetDict 100 7 [(U32, 262144); (U16, 16384)] [100]]
+             true empty_ledger in
+  live l = [] /\ count_faults is_foreign l = 2.
+Proof. cbv zeta. split; vm_compute; reflexivity. Qed.
+
+(* before fix 2822ce4: CompressMultiSlice with an output buffer that is too small *)
+Definition failing_thread : thread_spec :=
+  mkthread 1000 [OSetParam PQuality 5; OSetParam PLgwin 18] 900 [900]
+           [OStream [PhSizeHint 900; PhRingInit (262144 + 65536); PhStorage 2327; PhCommands 451 241; PhHasherSetup]] false.
+Lemma legacy_slice_refuted :
+  let l := multi_slice_life no_temps (legacy true) [] 1800 [failing_thread; failing_thread] in
+  length (live l) = 1%nat /\ count_faults is_dropped l = 1 /\ ~ returned l.
+Proof. cbv zeta. split; [|split; [|apply not_returned]]; vm_compute; reflexivity. Qed.
+
+(* KNOWN CLASS (not repaired): BrotliEncoderStateStruct has no Drop impl; an owner that lets a
+   raw state go without BrotliEncoderDestroyInstance leaks every buffer it holds *)
+Definition KnownClass (destroyed_by_owner : bool) : Prop := destroyed_by_owner = false.
+
+Lemma raw_drop_known_witness :
+  KnownClass false /\
+  ~ returned (instance_life no_temps (current true) 0 small_stream false empty_ledger).
+Proof. split; [reflexivity|apply not_returned; vm_compute; reflexivity]. Qed.
+
+(* a worker whose join fails: CompressMulti returns at once and the chunks of the workers
+   that were not joined yet are never freed (they sit in values the caller cannot open) *)
+Definition tiny_thread : thread_spec :=
+  mkthread 1000 [OSetParam PQuality 5; OSetParam PLgwin 18] 900 [900]
+           [OStream [PhSizeHint 900; PhRingInit (262144 + 65536); PhStorage 2327; PhCommands 451 241; PhHasherSetup]] true.
+Lemma join_failure_refuted :
+  ~ returned (multi_life_joinfail no_temps (current true) [] [tiny_thread; tiny_thread; tiny_thread] 1) /\
+  returned (multi_life no_temps (current true) [] [tiny_thread; tiny_thread; tiny_thread] empty_ledger).
+Proof. split; [apply not_returned; vm_compute; reflexivity|apply returnedb_spec; vm_compute; reflexivity]. Qed.
+
+(* hypotheses are satisfiable by non-trivial states: a history touching every field *)
+Definition busy_history : list op :=
+  [OSetParam PQuality 1; OSetParam PLgwin 18; OSetParam PCatable 1;
+   OStream [PhRingInit 200000];
+   OStream [PhSizeHint 250000; PhRingInit (524288 + 262144); PhStorage 500527; PhQ1Bufs; PhTable 131072;
+            PhTemp CFragmentTwoPass 0];
+   OStream [PhStorage 600523; PhTemp CFragmentTwoPass 1]].
+Definition busy_temps (c : callee) (k : N) : list tstep :=
+  [TAlloc EHT 245; TAlloc U8 7; TFree 1%nat; TFree 0%nat].
+Lemma busy_temps_balanced : forall c k, bal 0 (busy_temps c k) = true.
+Proof. reflexivity. Qed.
+Lemma busy_history_good : Forall (good_op 0) busy_history.
+Proof. repeat constructor. Qed.
+Lemma busy_history_nontrivial :
+  let s := run busy_temps (current true) busy_history (new_enc 0, empty_ledger) in
+  length (live (snd s)) = 5%nat /\ next (snd s) = 12 /\
+  returnedb (drop_enc (cleanup (current true) s)) = true.
+Proof. cbv zeta. repeat split; vm_compute; reflexivity. Qed.
